@@ -425,7 +425,20 @@ def r36(ctx):
                "a secret inconsistent with an earlier one can still be stored / accepted",
                where=f"{b.file}:{c.line}", sample="!= edge reaches neither a write nor Ok")
     # every write is after the loop: from loop body back to header then to write only via loop exit
-    for h in headers:
+    # the comparison loop is the range loop whose body contains the derive_secret comparison (an inlined place_secret
+    # brings a second range loop - the position scan - into this function; it is not the one meant)
+    cmp_blocks = {bi for bi, _ in cmps}
+    def _is_cmp_loop(h):
+        body = set()
+        for (_, v) in fv.result_edges(h, fv.b.term(h).call, "ok"):
+            body |= fv.reach(v, cut_nodes={h}) | {v}
+        # ... that are really inside the loop: the header is reachable again from them (a `break` leaves the body)
+        body = {x for x in body if h in fv.reach(x)}
+        return bool(body & cmp_blocks)
+    cmp_headers = [h for h in headers if _is_cmp_loop(h)]
+    ctx.ob("R3.6", len(cmp_headers) >= 1, f"{b.name}/comparison-in-loop", "the derive_secret comparison is not inside a loop over the "
+           "earlier secrets", where=f"{b.file}:{b.line}", sample=f"{len(cmp_headers)} comparison loop(s)")
+    for h in cmp_headers:
         t = fv.b.term(h).call.target
         # loop exit edges = edges where next() returned None
         none_edges = fv.result_edges(h, fv.b.term(h).call, "err")
